@@ -21,7 +21,7 @@ func codecPatterns() []string {
 	for _, p := range codecPkgs {
 		out = append(out, "./"+p)
 	}
-	return append(out, "./pkg/protocol/xprotocol", "./pkg/stream/xprotocol", "./pkg/protocol")
+	return append(out, "./pkg/protocol/xprotocol", "./pkg/stream/xprotocol", "./pkg/protocol", "./pkg/stream/http")
 }
 
 func init() {
@@ -314,6 +314,7 @@ func runC07(c *Ctx) {
 	c.Rule("C07.B1", "every index/slice/binary read on bytes is within the guarded length", 60)
 	c.Rule("C07.B2", "Drain only after the full-frame guard, by exactly the frame length; need-more-data edges are tight; no Drain before (nil,nil)", 20)
 	c.Rule("C07.B3", "matchers answer MatchAgain exactly below their (constant) width and never decide on fewer bytes than they read", 10)
+	c.Rule("C07.B3h", "the HTTP/1 detector gives a negative verdict only after it has seen as many bytes as it may read", 2)
 	c.Rule("C07.B2d", "Dispatch: loop exits only on empty/(nil,nil)/error; a frame goes to handleFrame exactly once", 5)
 	c.Assumptions = append(c.Assumptions,
 		"lengths are mathematical integers on a 64-bit int; uint32 wrap-around of (length field + small constant), i.e. frames >= 4 GiB, is outside the model",
@@ -335,6 +336,7 @@ func runC07(c *Ctx) {
 	br.runB2(decodes)
 	br.runB3(matchers)
 	runC07Dispatch(c)
+	runC07HTTPMatcher(c)
 }
 
 // ---------------------------------------------------------------------------------------------
@@ -819,5 +821,93 @@ func stripAssert(v ssa.Value) ssa.Value {
 		default:
 			return v
 		}
+	}
+}
+
+// runC07HTTPMatcher: StreamConnFactory.ProtocolMatch of HTTP/1. W = the largest number of bytes any access of the
+// function may need (upper bound of its index expressions, ignoring the access's own len guards); FAILED may only
+// be returned when len(magic) >= W — otherwise a prefix that could still become a match is rejected and the verdict
+// depends on where TCP cut the stream.
+func runC07HTTPMatcher(c *Ctx) {
+	fn := c.M("pkg/stream/http", "StreamConnFactory", "ProtocolMatch")
+	if fn == nil {
+		c.Unresolved("C07.B3h", "http.StreamConnFactory.ProtocolMatch")
+		return
+	}
+	fk := funcKey(fn)
+	ba := newBA(c, fn)
+	var magic *ssa.Parameter
+	for _, p := range fn.Params {
+		if isByteSlice(p.Type()) && !strings.Contains(p.Type().String(), "string") {
+			magic = p
+		}
+	}
+	if magic == nil {
+		c.Fail("C07.B3h", fk+":signature", fn.Pos(), "no []byte parameter")
+		return
+	}
+	lenP := ba.lenOf(magic)
+	lenAtom := ""
+	for a := range lenP.T {
+		lenAtom = a
+	}
+	br := newBoundsRun(c, map[*ssa.Function]bool{fn: true})
+	br.bas[fn] = ba
+	var W Lin
+	haveW, okW := false, true
+	for _, n := range br.needsOf(fn) {
+		// goal = len - need  →  need = len - goal
+		need := lenP.add(n.goal, -1)
+		if _, has := need.T[lenAtom]; has {
+			continue
+		}
+		v, ok := ba.upper(need, n.in.Block(), lenAtom, 0)
+		if !ok {
+			okW = false
+			continue
+		}
+		if !haveW {
+			W, haveW = v, true
+		} else if m, ok := ba.linMax(W, v); ok {
+			W = m
+		} else {
+			okW = false
+		}
+	}
+	if !okW || !haveW {
+		c.Fail("C07.B3h", fk+":read-width", fn.Pos(), "cannot bound how many bytes the detector may read")
+		return
+	}
+	c.Pass("C07.B3h", fk+":read-width", fn.Pos(), "the detector reads at most "+W.String()+" bytes")
+	nfail := 0
+	for _, in := range instrsWhere(fn, isReturn) {
+		ret := in.(*ssa.Return)
+		u, ok := ret.Results[0].(*ssa.UnOp)
+		if !ok {
+			continue
+		}
+		g, ok := u.X.(*ssa.Global)
+		if !ok || g.Name() != "FAILED" {
+			continue
+		}
+		nfail++
+		key := fmt.Sprintf("%s:failed#%d", fk, nfail)
+		goal := lenP.add(W, -1)
+		facts := ba.factsAt(ret.Block())
+		// lemma for min idioms: len >= p for every phi p mentioned by the facts, when provable
+		for _, f := range facts {
+			for a := range f.T {
+				if ba.phiOf[a] != nil {
+					if ba.proveAt(lenP.add(linAtom(a), -1), ret.Block(), 0) {
+						facts = append(facts, lenP.add(linAtom(a), -1))
+					}
+				}
+			}
+		}
+		c.Check("C07.B3h", key, ret.Pos(), ba.prove(goal, facts), "FAILED only when at least "+W.String()+" bytes have arrived",
+			"FAILED can be returned with fewer than the "+W.String()+" bytes the detector may need: a request whose first bytes are split differently by TCP is rejected (must answer EAGAIN)")
+	}
+	if nfail == 0 {
+		c.Unresolved("C07.B3h", "FAILED return in ProtocolMatch")
 	}
 }
